@@ -31,6 +31,11 @@ class Gen:
             return "tick(%d, %s)" % (self.next_tick, text)
         return text
 
+    def tk(self, text):
+        """always wrap in the tick probe"""
+        self.next_tick += 1
+        return "tick(%d, %s)" % (self.next_tick, text)
+
     def pick(self, options):
         tot = sum(w for w, _ in options)
         r = self.rng.random() * tot
@@ -269,6 +274,10 @@ class Gen:
             lambda: "(def(toList, [$1]) -> def(%s, %s.where($ > 0).toList()) -> [toList(%s), %s(), %s.select($).toList()])" % (f, self.list_lit(env, 1), i(), f, self.list_lit(env, 1)),
             lambda: "(def(select, $1) -> def(where, $1) -> %s.where(select($) >= where(0)).select(select($) + 1).len())" % self.list_lit(env, 1),
             lambda: "(def(any, 7) -> [any(), %s.any($ > 1), %s.all($ > 1)])" % (self.list_lit(env, 1), self.list_lit(env, 1)),
+            # a body is evaluated at EVERY call - also a call that passes nothing (no memo of a parameterless closure)
+            lambda: "(def(%s, %s) -> [%s(), %s(), %s(%s), %s()])" % (f, self.tk(i()), f, f, f, i(), f),
+            lambda: "(let(%s => %s) -> def(%s, %s + $%s) -> def(%s, %s() + %s()) -> [%s(), %s(), %s()])" % (x, i(), f, self.tk(i()), x, g, f, f, g, f, g),
+            lambda: "%s.select(def(%s, %s) -> %s() + %s()).toList()" % (self.list_lit(env, 1), f, self.tk("$"), f, f),
             # null bindings shadow outer non-null ones
             lambda: "(let(%s => %s) -> let(%s => null) -> [$%s, $%s = null])" % (x, i(), x, x, x),
             lambda: "[null, %s, null].select([$, $ = null])" % i(),
